@@ -93,8 +93,19 @@ def gen_rel(rng, level, names, main_ok=True):
     return ["actor", nm(names["actor"], ("me",)), gen_rel(rng, 2, names, main_ok) if rng.random() < 0.5 else None]
 
 
-def gen_path(rng, node, names=None, absolute_ok=True, main_ok=True, inline_ok=True):
+NODES = ["na", "nb", "nc", "nd"]
+_leaf = [0]
+
+
+def gen_path(rng, node, names=None, absolute_ok=True, main_ok=True, inline_ok=True, unique=False):
     segs = [rng.choice(LITS) for _ in range(rng.choice([1, 1, 2, 2, 3]))]
+    if unique:
+        # inside a program: node segments and share leaves from disjoint pools, every share leaf unique,
+        # so that no share is a level of another path (the store would refuse it with ValueError)
+        segs = [rng.choice(NODES) for _ in range(rng.choice([0, 1, 1, 2]) + (1 if node else 0))]
+        if not node:
+            _leaf[0] += 1
+            segs.append("v%d" % _leaf[0])
     r = rng.random()
     if r < 0.15 and absolute_ok:
         p = "." + ".".join(segs)
@@ -109,14 +120,14 @@ def gen_path(rng, node, names=None, absolute_ok=True, main_ok=True, inline_ok=Tr
     return p
 
 
-def gen_ref(rng, node, names, safe=False, main_ok=True):
+def gen_ref(rng, node, names, safe=False, main_ok=True, unique=False):
     """safe: forms that parse and resolve inside a program (no inline relation together with a clause,
     `main` only where a main exists)"""
     if not safe:
         return {"path": gen_path(rng, node), "rel": gen_rel(rng, 3, names) if rng.random() < 0.7 else None}
     if rng.random() < 0.25:
-        return {"path": gen_path(rng, node, main_ok=main_ok), "rel": None}
-    return {"path": gen_path(rng, node, main_ok=main_ok, inline_ok=False),
+        return {"path": gen_path(rng, node, main_ok=main_ok, unique=unique), "rel": None}
+    return {"path": gen_path(rng, node, main_ok=main_ok, inline_ok=False, unique=unique),
             "rel": gen_rel(rng, 3, names, main_ok) if rng.random() < 0.8 else None}
 
 
@@ -171,6 +182,7 @@ def documented(ref):
 # ----------------------------------------------------------------------------- skeleton / program
 
 def gen_skeleton(rng, with_acts):
+    _leaf[0] = 0
     nfr = rng.choice([1, 2, 3, 3, 4])
     names = {"framer": FRAMERS[:nfr], "frame": [], "actor": []}
     fpool = list(FRAMES)
@@ -197,42 +209,42 @@ def gen_skeleton(rng, with_acts):
     names["actor"] = [actor_name(p) for p in acts]
     for fr in framers:
         if rng.random() < 0.6:
-            fr["via"] = gen_ref(rng, True, names, safe=True, main_ok=not with_acts)
+            fr["via"] = gen_ref(rng, True, names, safe=True, main_ok=not with_acts, unique=with_acts)
         for f in fr["frames"]:
             if rng.random() < 0.5:
-                f["via"] = gen_ref(rng, True, names, safe=True, main_ok=not with_acts)
+                f["via"] = gen_ref(rng, True, names, safe=True, main_ok=not with_acts, unique=with_acts)
     prog = {"framers": framers, "actors": acts}
     if with_acts:
         # one moot framer cloned into a frame of the first framer gives a `main` link at build time
         if rng.random() < 0.6 and fpool:
             mf = fpool.pop(0)
             names["frame"].append(mf)
-            moot = {"name": "mike", "sched": "moot", "via": gen_ref(rng, True, names, safe=True) if rng.random() < 0.5 else None,
-                    "frames": [{"name": mf, "over": None, "via": gen_ref(rng, True, names, safe=True) if rng.random() < 0.5 else None,
+            moot = {"name": "mike", "sched": "moot", "via": gen_ref(rng, True, names, safe=True, unique=True) if rng.random() < 0.5 else None,
+                    "frames": [{"name": mf, "over": None, "via": gen_ref(rng, True, names, safe=True, unique=True) if rng.random() < 0.5 else None,
                                 "acts": [], "clones": []}]}
             framers.append(moot)
             names["framer"].append("mike")
             host = rng.choice(framers[0]["frames"])
             host["clones"].append({"of": "mike", "tag": "cl",
-                                   "via": gen_ref(rng, True, names, safe=True, main_ok=False) if rng.random() < 0.5 else None})
+                                   "via": gen_ref(rng, True, names, safe=True, main_ok=False, unique=True) if rng.random() < 0.5 else None})
         ai = 0
         for fr in framers:
             mok = fr["sched"] == "moot"
             for f in fr["frames"]:
                 for _ in range(rng.choice([1, 1, 2, 3])):
                     if rng.random() < 0.55:
-                        f["acts"].append({"verb": "put", "ref": gen_ref(rng, False, names, safe=True, main_ok=mok)})
+                        f["acts"].append({"verb": "put", "ref": gen_ref(rng, False, names, safe=True, main_ok=mok, unique=True)})
                     else:
                         pers = []
                         for k in range(rng.choice([0, 1, 2])):
                             pers.append(["k%d" % (k + 1), rng.choice(["", gen_ipath(rng, None, quoted=True, safe=True)])])
-                        f["acts"].append({"verb": "do", "via": gen_ref(rng, True, names, safe=True, main_ok=mok) if rng.random() < 0.6 else None,
+                        f["acts"].append({"verb": "do", "via": gen_ref(rng, True, names, safe=True, main_ok=mok, unique=True) if rng.random() < 0.6 else None,
                                           "per": pers, "as": acts[ai % len(acts)] if rng.random() < 0.7 else None})
                         ai += 1
     return prog, names
 
 
-def gen_ipath(rng, avoid, quoted=False, safe=False):
+def gen_ipath(rng, avoid, quoted=False, safe=False, no_names=False):
     """a path name string as Act.resolvePath receives it (no parse): keywords, literals, explicit names"""
     tail = [rng.choice(LITS) for _ in range(rng.choice([0, 1, 1, 2]))]
     heads = [[], [], [], ["me"], ["framer"], ["framer", "me"], ["framer", "main"], ["framer", "me", "frame"],
@@ -240,14 +252,16 @@ def gen_ipath(rng, avoid, quoted=False, safe=False):
              ["framer", "me", "frame", "me", "actor", "me"], ["framer", "me", "actor", "me"], ["framer", "me", "actor"],
              ["frame", "me"], ["actor", "me"], [""], ["", "framer", "alpha"], ["", "framer", "bravo", "frame", "fone"],
              ["framer", "other"], ["framer", "other", "frame", "fother", "actor", "me"]]
+    if no_names:
+        heads = [h for h in heads if "alpha" not in h and "bravo" not in h]
     h = rng.choice(heads)
     if safe:
         # inside a program: heads whose resolution cannot raise (no dangling keyword, no unresolvable main)
         h = rng.choice([[], [], ["me"], ["framer", "me"], ["framer", "me", "frame", "me"],
                         ["framer", "me", "frame", "me", "actor", "me"], ["framer", "me", "actor", "me"],
                         ["frame", "me"], [""], ["", "framer", "alpha"], ["framer", "other"]])
-        if not tail and h not in ([],):
-            tail = [rng.choice(LITS)]
+        _leaf[0] += 1
+        tail = [rng.choice(NODES) for _ in range(rng.choice([0, 0, 1]))] + ["w%d" % _leaf[0]]
     segs = h + tail
     if segs == [""]:
         segs = ["", rng.choice(LITS)]
@@ -579,7 +593,8 @@ class CHECK(core.Check):
         fi = rng.randrange(nfr)
         fj = rng.randrange(len(prog["framers"][fi]["frames"]))
         ren = self.pick_rename(rng, names)
-        inode = rng.choice([None, None, "", gen_ipath(rng, None).rstrip(".") + ".", gen_ipath(rng, None)])
+        inode = rng.choice([None, None, "", gen_ipath(rng, None, no_names=True).rstrip(".") + ".",
+                            gen_ipath(rng, None, no_names=True)])
         if inode == ".":
             inode = "q."
         actor = rng.choice(names["actor"] + [None, "lower", "XRay", "aB"])
@@ -745,7 +760,7 @@ class CHECK(core.Check):
             actor2 = new if (kind == "actor" and case["actor"] == old) else case["actor"]
             out2 = call_resolve(frame2, actor2, case["inode"], case["ipath"])
             return self.compare(case["ipath"].startswith("."), out[0], out2, kind, old, new, "ipath %r" % case["ipath"])
-        if out[0].startswith("ERR build"):
+        if out and out[0].startswith("ERR build"):
             return None
         sk2 = built(prog2)
         if sk2 is None:
